@@ -72,6 +72,8 @@ class FInfo(PyModel):
     def __getattr__(self, name):
         if name == "eps":
             return Rat.sym("eps", "pos")
+        if name in ("tiny", "smallest_normal"):
+            return S.eps_power(6)       # the smallest normal number: positive and far below every power of eps that occurs
         raise AnalysisAbort(f"np.finfo(...).{name} is not modelled")
 
 
@@ -451,6 +453,11 @@ class SymInterp(Interp):
             good = ("pos", "nonneg", "zero") if name == "min" else ("neg", "nonpos", "zero")
             if all(w is v0 or (w - v0).is_zero() or (w - v0).sign() in good for w in vals):
                 return v0
+        if any(v.symbols() & S.INFINITESIMAL for v in vals):
+            # generic quantities against infinitesimal ones (np.maximum(dt, np.finfo(float).tiny)): decided by the lowest order
+            for v0 in vals:
+                if all(w is v0 or self.cmp_scalar("ge" if name == "min" else "le", w, v0) is True for w in vals):
+                    return v0
         return fsym(name, *sorted(vals, key=lambda x: x.canon()))
 
     # ------------------------------------------------------------------ numpy over symbolic arrays
